@@ -433,17 +433,12 @@ func (p *Parser) infix(maxPriority Integer) (operator, error) {
 		return operator{}, errNoOp
 	}
 
-	if op := p.operators[a][operatorClassInfix]; op != (operator{}) {
-		l, _ := op.bindingPriorities()
-		if l <= maxPriority {
-			return op, nil
-		}
+	// The priority of the resulting term is the priority of the operator. It must fit in the context.
+	if op := p.operators[a][operatorClassInfix]; op != (operator{}) && op.priority <= maxPriority {
+		return op, nil
 	}
-	if op := p.operators[a][operatorClassPostfix]; op != (operator{}) {
-		l, _ := op.bindingPriorities()
-		if l <= maxPriority {
-			return op, nil
-		}
+	if op := p.operators[a][operatorClassPostfix]; op != (operator{}) && op.priority <= maxPriority {
+		return op, nil
 	}
 
 	p.backup()
